@@ -127,6 +127,9 @@ def rule_esc(c: Ctx) -> RuleResult:
     methods = _renderer_methods(c)
     raw_methods: list[str] = []
     for name, f in sorted(methods.items()):
+        rt_ = c.tf.ret_type(f)
+        if rt_ in ("bool", "int", "NoneType", "float"):
+            continue                      # a helper that does not produce output text
         r.functions += 1
         j = EscJudge(c, f)
         rets = [n for n in own_nodes(f.node) if isinstance(n, ast.Return) and n.value is not None]
@@ -135,9 +138,21 @@ def rule_esc(c: Ctx) -> RuleResult:
             for g, sites in c.cg.sites.items():
                 for cs in sites:
                     if f in cs.callees and g is not f:
+                        def into_attr(expr: ast.AST, depth: int = 0) -> bool:
+                            """Does the value of `expr` flow only into the value argument of attrSet?"""
+                            par_ = g.module.parents.get(expr)
+                            while isinstance(par_, (ast.IfExp, ast.BoolOp)) and (not isinstance(par_, ast.IfExp) or par_.test is not expr):
+                                expr, par_ = par_, g.module.parents.get(par_)
+                            if isinstance(par_, ast.Call) and isinstance(par_.func, ast.Attribute) and par_.func.attr == "attrSet" \
+                                    and len(par_.args) == 2 and par_.args[1] is expr:
+                                return True
+                            if isinstance(par_, ast.Assign) and len(par_.targets) == 1 and isinstance(par_.targets[0], ast.Name) and depth < 2:
+                                v_ = par_.targets[0].id
+                                uses = [x for x in own_nodes(g.node) if isinstance(x, ast.Name) and x.id == v_ and isinstance(x.ctx, ast.Load)]
+                                return bool(uses) and all(into_attr(u_, depth + 1) for u_ in uses)
+                            return False
                         par = g.module.parents.get(cs.node)
-                        ok = isinstance(par, ast.Call) and isinstance(par.func, ast.Attribute) and par.func.attr == "attrSet" \
-                            and len(par.args) == 2 and par.args[1] is cs.node
+                        ok = into_attr(cs.node)
                         r.add(f"{g.short}|rawtext-use", c.where(g, cs.node), g.short, U(par)[:70] if par is not None else U(cs.node),
                               "discharged" if ok else "violation",
                               "raw text flows only into an attribute value, which renderAttrs escapes" if ok else
@@ -178,6 +193,19 @@ def rule_esc(c: Ctx) -> RuleResult:
         inner = [n for n in own_nodes(esc.node) if isinstance(n, ast.Call) and isinstance(n.func, ast.Attribute) and n.func.attr == "replace"
                  and not (isinstance(n.func.value, ast.Call))]
         ok = bool(inner) and all(isinstance(i.args[0], ast.Constant) and i.args[0].value == "&" for i in inner)
+    if not ok:
+        # for old, new in <module-level constant sequence of pairs>: raw = raw.replace(old, new)
+        for loop in [n for n in own_nodes(esc.node) if isinstance(n, ast.For)]:
+            try:
+                table = c.p.fold(esc.module, loop.iter)
+            except Exception:
+                continue
+            tnames = [x.id for x in ast.walk(loop.target) if isinstance(x, ast.Name)]
+            calls = [n for n in ast.walk(loop) if isinstance(n, ast.Call) and isinstance(n.func, ast.Attribute) and n.func.attr == "replace"
+                     and len(n.args) == 2 and [U(a) for a in n.args] == tnames[:2]]
+            if calls and isinstance(table, list) and all(isinstance(p_, list) and len(p_) == 2 for p_ in table):
+                got2 = {p_[0]: p_[1] for p_ in table}
+                ok = all(got2.get(k) == v for k, v in need.items()) and table[0][0] == "&"
     r.add("escapeHtml|table", c.where(esc, esc.node), esc.short, "replace & < > \" (ampersand first)", "discharged" if ok else "violation",
           "maps & < > \" to entities, & first" if ok else "escapeHtml does not replace all of & < > \" (with & first)")
     rets = [n for n in own_nodes(esc.node) if isinstance(n, ast.Return)]
@@ -226,11 +254,17 @@ def rule_raw(c: Ctx) -> RuleResult:
     return r
 
 
-def _tag_ok(c: Ctx, f: Func, e: ast.AST | None) -> bool:
+def _tag_ok(c: Ctx, f: Func, e: ast.AST | None, depth: int = 0) -> bool:
     if e is None:
         return False
     if literal_strs(e) is not None:
         return True
+    if isinstance(e, ast.Name) and depth < 3:
+        # a local holding the tag: every assignment to it must be a valid tag expression
+        vals = [n.value for n in own_nodes(f.node) if isinstance(n, ast.Assign) and any(isinstance(t, ast.Name) and t.id == e.id for t in n.targets)]
+        params = {a.arg for a in f.node.args.args + f.node.args.kwonlyargs}
+        if vals and e.id not in params:
+            return all(_tag_ok(c, f, v, depth + 1) for v in vals)
     # "h" + str(<int>)
     if isinstance(e, ast.BinOp) and isinstance(e.op, ast.Add) and isinstance(e.left, ast.Constant) and isinstance(e.left.value, str) \
             and isinstance(e.right, ast.Call) and isinstance(e.right.func, ast.Name) and e.right.func.id == "str" and len(e.right.args) == 1:
@@ -245,6 +279,14 @@ def _tag_ok(c: Ctx, f: Func, e: ast.AST | None) -> bool:
 def _heading_range(c: Ctx, f: Func, e: ast.AST, at: ast.AST) -> str:
     """For a tag of the form 'h' + str(X): '' if X is provably within 1..6 at the site, else why not."""
     x = None
+    if isinstance(e, ast.Name):
+        vals = [n for n in own_nodes(f.node) if isinstance(n, ast.Assign) and any(isinstance(t, ast.Name) and t.id == e.id for t in n.targets)]
+        for n in vals:
+            if literal_strs(n.value) is None:
+                why = _heading_range(c, f, n.value, n)
+                if why:
+                    return why
+        return ""
     if isinstance(e, ast.BinOp) and isinstance(e.right, ast.Call) and e.right.args:
         x = e.right.args[0]
     elif isinstance(e, ast.JoinedStr):
